@@ -2,6 +2,7 @@
 """tools/mkseeded.py — collect confirmed seeded changes from /tmp/mutout/<ID>/ into /verif/seeded/<ID>/ with meta.json.
 Detection results are parsed from the seedtest logs given on the command line."""
 import json, os, re, shutil, sys, glob
+ROUND = os.environ.get('ROUND', '')   # '' = first round, '2' = second round (/tmp/mutout2, seeded/<ID>-r2)
 logs = sys.argv[1:]
 detect = {}   # id -> {check: line}
 cur = None
@@ -13,23 +14,23 @@ for lg in logs:
         if m and cur:
             detect[cur][m.group(1)] = (int(m.group(2)), m.group(3).strip()[:300])
 confirm = {}
-for f in glob.glob('/tmp/confirm*.log'):
+for f in glob.glob(f'/tmp/confirm{ROUND}_*.log' if ROUND else '/tmp/confirm[0-9].log'):
     for line in open(f):
         m = re.match(r'(C\d\d): (.*)', line)
         if m: confirm[m.group(1)] = m.group(2).strip()
 props = {json.loads(l)['id']: json.loads(l) for l in open('/verif/properties.jsonl')}
 for pid in sorted(detect):
-    src = f'/tmp/mutout/{pid}'
+    src = f'/tmp/mutout{ROUND}/{pid}'
     if 'CONFIRMED' not in confirm.get(pid, ''):
         print(pid, 'not confirmed:', confirm.get(pid)); continue
-    dst = f'/verif/seeded/{pid}'; os.makedirs(dst, exist_ok=True)
+    dst = f'/verif/seeded/{pid}' + (f'-r{ROUND}' if ROUND else ''); os.makedirs(dst, exist_ok=True)
     for fn in ['patch.diff', 'demo.rs', 'notes.md']:
         shutil.copy(f'{src}/{fn}', f'{dst}/{fn}')
     hits = {c: v[1] for c, v in detect[pid].items() if v[0] == 1}
     broken = {c: v for c, v in detect[pid].items() if v[0] not in (0, 1)}
     notes = open(f'{src}/notes.md').read()
     meta = {
-        "id": f"seed-{pid}",
+        "id": f"seed-{pid}" + (f"-r{ROUND}" if ROUND else ""),
         "breaks_property": pid,
         "property_title": props[pid]['title'],
         "origin": "independent sub-agent given only the property text and a scratch worktree of tuffy/flac-codec (nothing from /verif)",
